@@ -124,10 +124,13 @@ def align(prog, rep, rule):
         al = Aligner({DATA: Tag("pos")})
         masks = mask_sources(prog, fn, b)
         bad = []
+        from vstat.terms import guarded_alts
         for kind, _, m in masks:
-            tg = al.tag(m)
-            if tg.space != "pos":
-                bad.append(f"mask {show(m)[:100]} is in {tg!r} space")
+            for _, mm in guarded_alts(m):
+                for a in alts(mm):
+                    tg = al.tag(a)
+                    if tg.space != "pos":
+                        bad.append(f"mask {show(a)[:100]} is in {tg!r} space")
         bad += [msg for _, msg in al.violations]
         inst = f"{fn.qualname}:masks"
         rep.check(not bad and bool(masks), rule, inst, fn.where(), f"{len(masks)} mask expression(s), all aligned with input positions",
@@ -330,7 +333,23 @@ def number_slicer(prog, rep):
     im = ("attr", SELF, "include_max")
     E = None
     comp_seen = False
+    from vstat.terms import guarded_alts
+    sources = []
     for kind, holder, m in mask_sources(prog, fn, b):
+        if kind == "append" and parse_mask(m) is None:
+            # one append of a mask chosen by a condition: split by the defining statements / conditional expressions
+            st = holder
+            arg = st.value.args[0]
+            if isinstance(arg, ast.Name) and len(b.rd.reaching(arg.id, st)) > 1:
+                for d in b.rd.reaching(arg.id, st):
+                    for lits, mm in guarded_alts(b.def_term(d)):
+                        sources.append((kind, holder, mm, tuple(pcs.of(d.stmt)) + tuple(lits)))
+            else:
+                for lits, mm in guarded_alts(m):
+                    sources.append((kind, holder, mm, tuple(lits)))
+        else:
+            sources.append((kind, holder, m, ()))
+    for kind, holder, m, lits in sources:
         pm = parse_mask(m)
         if pm is None:
             rep.fail("C10.ops", f"{q}:mask", fn.where(), f"unrecognised mask {show(m)[:120]}")
@@ -349,7 +368,7 @@ def number_slicer(prog, rep):
                 E = ep[0]
         elif kind == "append":
             st = holder
-            pc = pcs.of(st)
+            pc = tuple(pcs.of(st)) + tuple(lits)
             branch = True if im in pc else False if ("not", im) in pc else None
             inst = f"{q}:last:{'include_max' if branch else 'exclude_max' if branch is False else 'unconditional'}"
             if branch is None:
@@ -467,6 +486,32 @@ def drop(prog, rep):
     if not isinstance(ret.value, ast.Tuple) or len(ret.value.elts) != 3:
         raise AnalysisError(f"{q}: expected a 3-tuple return")
     outnames = [e.id if isinstance(e, ast.Name) else None for e in ret.value.elts]
+    rt = b.term(ret.value, ret)
+    zt = ("call", G("zip"), tuple(("param", f) for f in formals), ())
+    if rt[0] == "tuple" and len(rt[1]) == 3 and all(x[0] == "comp" for x in rt[1]) and not any(appended(fn, b, nm) for nm in outnames if nm):
+        # kept = [(m, r, b) for m, r, b in zip(...) if sum(m) >= min]; out_k = [t[k] for t in kept]
+        for k, proj in enumerate(rt[1]):
+            kept = proj[4]
+            ok = False
+            why = f"output {k} must be the {k}-th component of the triples that passed the size test"
+            if kept[0] == "comp" and kept[4] == zt and kept[2][0] == "tuple" and len(kept[2][1]) == 3:
+                i = ("idx", kept[3], "zip")
+                trip_ok = kept[2][1] == tuple(("sub", ("param", f), i) for f in formals)
+                mask = ("sub", ("param", formals[0]), i)
+                conds = kept[5] if isinstance(kept[5], tuple) else ()
+                cond_ok = len(conds) == 1 and conds[0][0] == "cmp" and conds[0][1] == ">=" and conds[0][3] == ("attr", SELF, "min_n_points") \
+                    and conds[0][2] in (("call", G("numpy.sum"), (mask,), ()), ("call", ("attr", mask, "sum"), (), ()), ("call", G("numpy.count_nonzero"), (mask,), ()))
+                j = ("idx", proj[3], "iter")
+                proj_ok = proj[2] == ("sub", ("sub", kept, j), ("const", k)) or proj[2] == ("item", ("sub", kept, j), k) or proj[2] == ("sub", ("param", formals[k]), i)
+                # element j of the kept list, component k
+                if not proj_ok and proj[2][0] in ("sub", "item"):
+                    proj_ok = proj[2][-1] in (k, ("const", k)) and proj[2][1] == ("sub", kept, j)
+                ok = trip_ok and cond_ok and proj_ok and not proj[5]
+                if trip_ok and not cond_ok:
+                    why = f"an interval is kept iff np.sum(mask) >= self.min_n_points (of the same interval); found condition {[show(c)[:80] for c in conds]}"
+            rep.check(ok, "C10.drop", f"{q}:out{k}", fn.where(ret), f"out[{k}] <- in[{k}][i] iff sum(mask_i) >= min_n_points", why)
+        rep.ok("C10.drop", f"{q}:zip", fn.where(), "one pass over zip(slices, references, boundaries)")
+        return
     for k, nm in enumerate(outnames):
         aps = appended(fn, b, nm) if nm else []
         ok = False
@@ -577,8 +622,15 @@ def ppi(prog, rep):
                 nxt = c[2][0]
                 cur = a[2][0]
                 # next_interval = data[masks[i+1]] ; interval in {data[masks[0]], previous next_interval}
-                if nxt[0] == "sub" and nxt[1] == DATA and nxt[2][0] == "sub" and nxt[2][2][0] == "bin" and nxt[2][2][1] == "+" and algebra.same(nxt[2][2][3], ("const", 1)):
-                    first = ("sub", DATA, ("sub", nxt[2][1], ("const", 0)))
+                masks_t = None
+                if nxt[0] == "sub" and nxt[1] == DATA and nxt[2][0] == "sub":
+                    sel = nxt[2]
+                    if sel[2][0] == "bin" and sel[2][1] == "+" and algebra.same(sel[2][3], ("const", 1)) and sel[2][2][0] == "idx":
+                        masks_t = sel[1]  # masks[i + 1] for the loop's i
+                    elif sel[2][0] == "idx" and sel[1][0] == "sub" and sel[1][2] == ("slice", ("const", 1), NONE, NONE):
+                        masks_t = sel[1][1]  # element of masks[1:]
+                if masks_t is not None:
+                    first = ("sub", DATA, ("sub", masks_t, ("const", 0)))
                     okm = all(x == first or x == nxt or x[0] == "cyc" for x in alts(cur))
     rep.check(okm, "C10.ppi", f"{q}:midpoint", fn.where(), "boundary = (max(interval_i) + min(interval_i+1)) / 2",
               "the boundary between two intervals must be the mean of the largest value of the lower and the smallest value of the higher interval")
